@@ -89,6 +89,8 @@ class Ctx:
             self.distinct.add(h64(key))
         if sample is not None and len(self.samples) < self.MAX_SAMPLES:
             self.samples.append(sample)
+        elif sample is None and self.evaluations <= 2 and len(self.samples) < 2 and nontrivial:
+            self.samples.append({'case_key': _flat(key)[:600]})   # never leave the evidence without a written-out case
 
     def count(self, name, n=1):
         self.counters[name] += n
